@@ -108,9 +108,16 @@ class IncludeExcludeTree():
                 if key in exclude:
                     continue
                 elif key in self.subtrees:
+                    subtree = self.subtrees[key]
+                    # subtree.include means that the key itself
+                    # is selected (only its listed parts are not)
                     if isinstance(value, dict):
-                        # otherwise it won't be selected anyway
-                        result[key] = self.subtrees[key].get(value)
+                        subresult = subtree.get(value)
+                        # no empty shells for unselected paths
+                        if subresult or subtree.include:
+                            result[key] = subresult
+                    elif subtree.include:
+                        result[key] = value
                 else:
                     result[key] = value
         else:
@@ -120,9 +127,13 @@ class IncludeExcludeTree():
                 if key in include:
                     result[key] = value
                 elif key in self.subtrees:
+                    subtree = self.subtrees[key]
                     if isinstance(value, dict):
-                        # otherwise it won't be selected
-                        result[key] = self.subtrees[key].get(value)
+                        subresult = subtree.get(value)
+                        if subresult or subtree.include:
+                            result[key] = subresult
+                    elif subtree.include:
+                        result[key] = value
                 else:
                     continue
 
